@@ -61,7 +61,13 @@ class FixEmptySequenceComparison(
                                 )
                             case _:
                                 return (
-                                    cst.parse_expression(f"bool({comp_var.value})")
+                                    # build the call from the node: the operand is not always a plain name
+                                    cst.Call(
+                                        func=cst.Name("bool"),
+                                        args=[cst.Arg(value=comp_var)],
+                                        lpar=original_node.lpar,
+                                        rpar=original_node.rpar,
+                                    )
                                     if isinstance(target.operator, cst.NotEqual)
                                     else negation
                                 )
